@@ -201,6 +201,16 @@ def run(ctx):
                     good.append(False)
             okq = len(good) >= 2 and all(good)
             desc = "filter_map with %d closure paths" % len(good)
+            if not okq:
+                # the closure body as one expression: `(pred).then(|| k.clone())` / `(pred).then_some(k)`
+                from ..terms import apply_closure
+                rc = apply_closure(r[2][1], (x,))
+                if rc[0] == "call" and rc[1] in ("bool::then", "bool::then_some") and len(rc[2]) == 2:
+                    cnd, val = rc[2]
+                    if rc[1] == "bool::then":
+                        val = apply_closure(val, ()) if val[0] == "closure" else val
+                    okq = fv({repr(cnd): True}, want) is True and fv({repr(cnd): False}, want) is False and val == ("tfield", x, 0)
+                    desc = "filter_map(|e| (%s).then(%s))" % (fmt(cnd)[:120], fmt(val)[:60])
     ctx.check(okq, "R09-query", qry.key, qry, "query keeps keys of `known` with f >= max(ceil((threshold - epsilon) * n), 0)", "query is %s" % desc[:300])
 
     # ---- constructors ---------------------------------------------------------------------------------------------
